@@ -55,6 +55,7 @@ func init() {
 		{"two-real-nodes-over-grpc(servers, syncer, election, metrics)", runC19Servers},
 		{"coder-from-many-goroutines(short keys)", func(c *harness.Case) { _ = concurrentRoundTrips(c.Rng.Int63(), 8, 4000) }},
 		{"multi-partition-scans-failing-in-several-partitions", runC19FailingScans},
+		{"overlapping-compactions-on-engines-without-native-ttl", runC19Compactions},
 		{"follower-becomes-leader(C15 fail-over)", func(c *harness.Case) { c.Index = (c.Index / 6) * 6; runC15(c) }},
 	}
 	Registry["C19"] = &Prop{
@@ -417,4 +418,57 @@ func runC19FailingScans(c *harness.Case) {
 	wg.Wait()
 	atomic.StoreInt32(&failing, 0)
 	c.Stat("scans_with_failing_partitions", atomic.LoadInt64(&scans))
+}
+
+// runC19Compactions: several compaction requests overlap on one node (a client's Compact, the leader's own loop, the
+// apiserver's compactor) while a client writes Events; the engine has no native TTL (TiKV mock, or memkv behind a
+// wrapper reporting none), so every request also consults and extends the node's compaction history for the expiry mark.
+func runC19Compactions(c *harness.Case) {
+	kind := []string{"tikv", "memkv"}[(c.Index/len(c19Items))%2]
+	eng, err := harness.NewEngine(kind)
+	if err != nil {
+		c.Inconclusive(err.Error())
+		return
+	}
+	defer eng.Close()
+	w := harness.NewWrap(eng.KV)
+	w.NoTTL = true
+	backend.VerifSetEventsTTL(1)
+	defer backend.VerifSetEventsTTL(3600)
+	n := harness.NewNode(harness.NodeOpts{KV: w, NoIdleYield: true})
+	defer n.Retire()
+	var stop int32
+	var wg sync.WaitGroup
+	wg.Add(1)
+	go func() {
+		defer wg.Done()
+		for i := 0; atomic.LoadInt32(&stop) == 0 && i < 4000; i++ {
+			k := fmt.Sprintf("%s/events/ns/e%03d", harness.Prefix, i%40)
+			out := n.Do(harness.SeqOp{Kind: "create", Key: k, Val: []byte("e")})
+			if !out.Succeeded {
+				if g, gerr := n.Get(k, 0); gerr == nil && g.Kv != nil {
+					n.Do(harness.SeqOp{Kind: "update", Key: k, Val: []byte("f"), Exp: g.Kv.Revision})
+				}
+			}
+		}
+	}()
+	var compactions int64
+	var cwg sync.WaitGroup
+	for g := 0; g < 4; g++ {
+		cwg.Add(1)
+		go func(g int) {
+			defer cwg.Done()
+			for i := 0; i < 25; i++ {
+				if _, cerr := n.B.Compact(harness.Ctx, 0); cerr == nil {
+					atomic.AddInt64(&compactions, 1)
+				}
+				time.Sleep(time.Duration(200*(g+1)) * time.Microsecond)
+			}
+		}(g)
+	}
+	cwg.Wait()
+	atomic.StoreInt32(&stop, 1)
+	wg.Wait()
+	c.Stat("overlapping_compaction_requests", atomic.LoadInt64(&compactions))
+	c.AddSet("engines_without_native_ttl", kind)
 }
